@@ -776,3 +776,70 @@ def c17_11(R):
                    "split_tx_queue_into_segments returns Ok without refreshing this_poll.unsegmented_data on an exit where the ring can hold bytes that were never segmented (%s): unsent_data_exists() keeps "
                    "the value of an earlier poll, so after the application writes more and closes, the FIN is sent ahead of - and with the sequence number of - data that was accepted but never transmitted"
                    % (", ".join(under) or "unconditional"), where=e.where(), instance="exit-refreshes-unsegmented")
+
+
+ALL_STATES = ("Closed", "Established", "FinWait1", "FinWait2", "LastAck", "SynAckSent", "SynReceived")
+AUDITED_PRE_ACK_EXITS = {
+    (fs("LastAck"), fs("ST_RESET")): "a RESET that acknowledges our FIN is a clean close (nothing left to acknowledge)",
+    (fs(*ALL_STATES), fs("ST_SYN")): "a stray SYN on an existing connection is ignored",
+    (fs("SynAckSent"), fs("ST_DATA", "ST_STATE")): "handshake: the first packet must acknowledge our SYN-ACK, anything else is not from this conversation",
+    (fs("Established", "FinWait1", "FinWait2"), fs("ST_FIN")): "a FIN out of sequence is dropped whole (C04.3)",
+    (fs("LastAck"), fs("ST_DATA", "ST_FIN", "ST_STATE")): "data numbered beyond the remote FIN",
+}
+
+
+@rule("C05.8", ["C05", "C06", "C01", "C02"], ["E7", "E2"], "a packet's acknowledgement and window are discarded only for the audited reasons",
+      "Every packet of the conversation carries ack_nr, a selective ACK and the peer's window, whatever else it is (a duplicate, a retransmission, out of order). process_incoming_message takes them "
+      "in - remove_up_to_ack, recovery.on_ack, last_remote_window, congestion_controller.set_remote_window - after the state-machine match; the Ok exits that precede remove_up_to_ack are the packets "
+      "dropped whole. The discriminant dataflow gives each such exit its (states, packet types); the set must equal the audited table (RESET acking our FIN, stray SYN, wrong handshake ack, FIN out "
+      "of sequence, data beyond the remote FIN). A new early exit - a 'fast path' for duplicate ST_DATA - silently ignores window reductions (C05) and acknowledgements (C06: acked data retransmitted).")
+def c05_8(R):
+    b = R.body(PIM)
+    dt = DiscrTracker(b, enums={SE, "raw::Type"})
+    skey = tkey = None
+    for s in b.stmts():
+        if s.rv.kind == "agg" and s.rv.j["ak"] == "tuple" and s.place.is_local and len(s.rv.ops) == 2 and trace(b, s.rv.ops[0]).last_field == "VirtualSocket.state":
+            skey = ("place", s.place.local, ("tuple.0",))
+            tt = trace(b, s.rv.ops[1])
+            if tt.kind == "call":
+                tkey = ("get", tt.root[1].resolved, trace(b, tt.root[1].args[0]).describe())
+    R.require(skey is not None and tkey is not None, "(self.state, hdr.get_type()) scrutinee")
+    rua = [t for t in b.calls() if call_matches(t, ("Segments::remove_up_to_ack",))]
+    R.require(len(rua) == 1, "one remove_up_to_ack call in process_incoming_message")
+    after = b.reachable(rua[0].j["target"])
+    # ... and the window is taken in on every way from there to an Ok exit or stored before (C05.4 checks the store itself)
+    exits = [d for d in b.all_defs(0) if isinstance(d, Stmt) and d.rv.kind == "agg" and d.rv.j.get("variant") == "Ok"]
+    pre = {(e.bb, e.idx): e for e in exits if e.bb not in after}
+    R.floor("Ok exits that precede remove_up_to_ack", len(pre), 4)
+    seen_at = {}
+
+    def edge(term, tgt, label, d):
+        r = dt.edge(term, tgt, label, d)
+        return [] if r is False else [r]
+
+    def step(it, d):
+        if isinstance(it, Stmt) and (it.bb, it.idx) in pre:
+            seen_at.setdefault((it.bb, it.idx), set()).add(d)
+        return None
+    typestate(b, [frozenset()], step, edge)
+    got = set()
+    for k, ds in sorted(seen_at.items()):
+        e = pre[k]
+        frm, typ = set(), set()
+        for d in ds:
+            frm |= set(dt.possible(d, skey, SE))
+            typ |= set(dt.possible(d, tkey, "raw::Type"))
+        key = (fs(*frm), fs(*typ))
+        got.add(key)
+        if key in AUDITED_PRE_ACK_EXITS:
+            R.ok("dropped-whole-only-as-audited", "(%s | %s)" % key, AUDITED_PRE_ACK_EXITS[key])
+        else:
+            R.fail([PIM, "unaudited-exit-before-ack-processing", "from=" + key[0], "on=" + key[1]],
+                   "process_incoming_message returns Ok for (%s) on %s before remove_up_to_ack / the window update: the acknowledgement, selective ACK and window that packet carries are ignored - a window "
+                   "reduction is not obeyed and data the peer acknowledged is retransmitted" % key, where=e.where(), instance="dropped-whole-only-as-audited")
+    # the window store itself lies after the ack processing
+    ws = [s for s in b.stmts() if written_field(b, s) == "VirtualSocket.last_remote_window"]
+    R.floor("stores to last_remote_window in process_incoming_message", len(ws), 1)
+    for s in ws:
+        if s.bb in after:
+            R.ok("window-taken-after-validation", PIM, "last_remote_window stored after remove_up_to_ack")
